@@ -83,6 +83,9 @@ type scenario struct {
 	// scheduler). The caller of Unlock does not wait for a beat in flight.
 	SlowBeat    int
 	SlowBeatFor time.Duration
+	// DirOpenFailures > 0: the first DirOpenFailures times contender 1 opens the lock DIRECTORY (to list it) the backend
+	// refuses with EMFILE — stat, mkdir and rmdir need no descriptor and go on working
+	DirOpenFailures int
 }
 
 type phase int
@@ -321,6 +324,17 @@ func body(sc scenario) func(x *gosim.Exec) {
 				return &vfsx.Inject{Err: &os.PathError{Op: "remove", Path: op.Path, Err: syscall.EBUSY}}
 			}
 		}
+		if sc.DirOpenFailures > 0 {
+			failed := 0
+			hook.BeforeOp = func(op *vfsx.Op) *vfsx.Inject {
+				if op.Client == 1 && (op.Kind == vfsx.KOpen || op.Kind == vfsx.KOpenFile) && op.Path == lockDir && failed < sc.DirOpenFailures {
+					failed++
+					x.Note("open %d of the lock directory by contender 1 refused: %s", failed, op)
+					return &vfsx.Inject{Err: &os.PathError{Op: "open", Path: op.Path, Err: syscall.EMFILE}}
+				}
+				return nil
+			}
+		}
 		if sc.SlowBeat > 0 {
 			opens := 0
 			hook.BeforeOp = func(op *vfsx.Op) *vfsx.Inject {
@@ -525,6 +539,14 @@ func scenarios() []scenario {
 		_ = hold
 		add(name, "posixmem", "free", 1, T(false), late)
 		out[len(out)-1].SlowBeat, out[len(out)-1].SlowBeatFor = beat, 160*time.Millisecond
+	}
+	// a lock held for 200 ms, beating; an overriding contender arrives at 150 ms and cannot open the lock directory the first
+	// 1 / 2 / 3 times it tries
+	for _, n := range []int{1, 2, 3} {
+		late := T(true)
+		late.StartAfter = 150 * time.Millisecond
+		add(fmt.Sprintf("free/Try hold200 + late Try-override (its first %d opens of the lock directory fail) P1", n), "posixmem", "free", 1, T(false), late)
+		out[len(out)-1].DirOpenFailures = n
 	}
 	if f := os.Getenv("VERIF_SCENARIO"); f != "" {
 		var sel []scenario
